@@ -44,6 +44,19 @@ THEOREMS = [
     "TornadoModel.C01.chunked_roundtrip_post",
     "TornadoModel.C01.model_refines_spec",
     "TornadoModel.C01.model_eq_spec",
+    "TornadoModel.C01.delivered_eq_spec",
+    "TornadoModel.C01.reject_delivers_nothing_further",
+    "TornadoModel.C01.closed_has_event",
+    "TornadoModel.C01.refine_full",
+    "TornadoModel.C01.drain_follows",
+    "TornadoModel.C01.hParseLine_iff",
+    "TornadoModel.C01.splitOnC_iff",
+    "TornadoModel.C01.dropOneCr_iff",
+    "TornadoModel.C01.hParse_iff",
+    "TornadoModel.C01.parseHead_sound",
+    "TornadoModel.C01.decodeChunks_ok_sound",
+    "TornadoModel.C01.decodeChunks_complete",
+    "TornadoModel.C01.decodeChunks_ok_iff",
 ]
 TRUSTED = [
     "CPython `re` for _ABNF.request_line / field_value / token / host, r'\\r?\\n\\r?\\n', r',\\s*', r'\\r?\\n$' "
@@ -68,21 +81,47 @@ RULE = ("grammar-generated pipelines of 1-4 requests (valid and near-valid start
         "stream either carries a body, is rejected, or holds >=2 requests; distinct by canonical JSON")
 EXHAUSTIVE = {"quick": False, "thorough": False}
 CLAUSES = {
-    "split into TCP segments in any way": "feed_append + segmentation_independent (machine level) ; tie: every stream x several segmentations vs Spec.readAll",
-    "exactly the sequence of requests a strict reader extracts": "requestLine_iff, bodyKind_*, host_* ; "
-        "model_refines_spec, model_eq_spec (machine on the whole stream vs the batch reader Spec.readAll: finished requests, in order); also checked on every case through impl=Model and impl|=Spec",
-    "conflicting or non-numeric Content-Length": "bodyKind_cl_not_numeric, bodyKind_cl_unequal",
-    "Content-Length together with Transfer-Encoding": "bodyKind_cl_te_conflict",
+    "split into TCP segments in any way": "feed_append + segmentation_independent (machine level: equal states incl. the trace); "
+        "delivered_eq_spec is stated for an arbitrary segmentation; tie: every stream x several segmentations vs Spec.readAll",
+    "exactly the sequence of requests (method, target, version, header fields, body bytes) a strict reader extracts": "delivered_eq_spec "
+        "(for every segmentation: the application's view of the trace = Spec.readAll's FINISHED requests incl. bodies, no others; "
+        "the partial body of the unfinished/rejected message = the reader's; closed iff the reader rejects/stops) -- proof: refine_full, "
+        "drain_follows (Full.lean); model_refines_spec / model_eq_spec are the older heads-only prefix corollaries. "
+        "CAVEAT (review S2): Spec.readAll is composed from the same grammar functions as the model (findHeadEnd, parseHead, canKeepAlive, "
+        "hostCheck, bodyKind, findCrlf, parseHexInt), so this theorem establishes the batch/incremental, order, body and tail agreement, NOT "
+        "the grammar decisions. The grammar decisions are characterised independently only by: requestLine_iff/_strict (request line, iff), "
+        "hParseLine_iff / hParse_iff / splitOnC_iff / dropOneCr_iff (header lines + block, iff: field-line = token ':' OWS field-value OWS, "
+        "obs-fold, one optional CR before LF, blank lines skipped), parseHead_sound (leading CR/LF skipped; soundness direction only), "
+        "bodyKind_*/host_* (one-directional reject lemmas + bodyKind_chunked_iff), decodeChunks_ok_iff (the batch chunked decoder accepts EXACTLY the declarative "
+        "grammar Chunked: *(1*HEXDIG CRLF data CRLF) 1*HEXDIG(=0) CRLF CRLF, size = data length > 0, size line <= 64 bytes, total <= limit), chunked_roundtrip_spec. "
+        "tie only: canKeepAlive/connOptions, findHeadEnd (the blank-line search, hence 'only ONE leading blank line'), isHost, the multimap "
+        "order (dset/hAll), and the quirks the model encodes as-is (\\s incl. 0x85/0xA0 between "
+        "Content-Length copies, HTTP/1.5, CR CR LF after the request line) -- every case checks impl = Model",
+    "bare-LF line ends, obsolete line folding, leading blank lines": "hParse_iff + dropOneCr_iff (line ends at LF, exactly one optional CR dropped), "
+        "hParseLine_iff (ContLine = obs-fold appended with one SP to the last field), parseHead_sound (any leading CR/LF bytes before the request line; "
+        "the limit to ONE blank line comes from the header-end search and is tie only)",
+    "conflicting or non-numeric Content-Length": "bodyKind_cl_not_numeric, bodyKind_cl_unequal (one-directional: these inputs => HTTPInputError)",
+    "Content-Length together with Transfer-Encoding": "bodyKind_cl_te_conflict (one-directional)",
     "a transfer coding other than chunked": "bodyKind_te_not_chunked, bodyKind_chunked_iff",
-    "malformed chunk size or chunk terminator": "parseHexInt_none_iff, chunked_strict_size, chunked_size_line_too_long, chunked_strict_terminator, chunked_strict_last_terminator (one step, any buffer); round trip over all lists of non-empty chunks: parseHexInt_toHex_roundtrip, chunked_roundtrip_spec (batch decoder), chunked_roundtrip / chunked_roundtrip_post (machine)",
+    "malformed chunk size or chunk terminator": "parseHexInt_none_iff (size token grammar, iff); decodeChunks_ok_iff / decodeChunks_ok_sound / decodeChunks_complete "
+        "(a complete body is accepted iff it is a Chunked body of the declarative grammar within the limit: no extensions, no trailers, CRLF terminators); run level: delivered_eq_spec + drain_follows tie the machine to the batch "
+        "decoder Spec.decodeChunks for ok / bad / more verdicts (bad => closed, only the complete chunks' bytes delivered); chunked_strict_size, "
+        "chunked_size_line_too_long, chunked_strict_terminator, chunked_strict_last_terminator are ONE-STEP unfoldings of the machine (kept, true, weak); "
+        "round trip over all lists of non-empty chunks: parseHexInt_toHex_roundtrip, chunked_roundtrip_spec (batch decoder), chunked_roundtrip / chunked_roundtrip_post (machine)",
     "malformed request line": "requestLine_iff, requestLine_strict",
-    "missing/invalid/multiple Host": "host_missing_11, host_invalid, host_comma, host_default_10",
-    "delivers nothing further, answers 400 or closes": "reject_is_final, reject400_closed, closeSilent_closed",
-    "never reports the peer's malformed input as an uncaught application error": "never_uncaught, never_uncaught_eof (model) ; tie: no ERROR 'Uncaught exception' record on any case",
+    "missing/invalid/multiple Host": "host_missing_11, host_invalid, host_comma, host_default_10 (one-directional; the host character class isHost itself is tie only)",
+    "delivers nothing further, answers 400 or closes": "reject_delivers_nothing_further (run level: if Spec.readAll stops with reject/stop at the end of a prefix, then for "
+        "every continuation and every segmentation the final state AND trace equal those of the prefix alone: no later req/data/fin/response; view = the reader's requests; "
+        "phase closed; `closed` event in the trace), closed_has_event; reject_is_final, reject400_closed, closeSilent_closed are definitional one-liners (kept). "
+        "tie only: that a 400 (rather than a silent close) is written for HTTPInputError-type rejects -- the model's reject400 vs closeSilent split is checked by impl = Model",
+    "never reports the peer's malformed input as an uncaught application error": "tie only: no ERROR 'Uncaught exception' / WARNING+ record on any case (spec_violation). "
+        "never_uncaught / never_uncaught_eof only record that the model (of the FIXED code) has no transition emitting `uncaught`; they are true by construction "
+        "and carry no weight beyond impl = Model",
 }
 PARALLEL = True
 CASE_TIMEOUT = 120
-LEVEL_NOTE = "model_eq_spec and the chunked round trip are proved; the batch reader's tail (pending/reject/stop) and bodies are compared with the implementation on every case"
+LEVEL_NOTE = ("delivered_eq_spec (requests incl. bodies, partial body, closed-ness, any segmentation) and reject_delivers_nothing_further are proved against the batch reader; "
+              "the batch reader shares the model's grammar functions: grammar decisions rest on requestLine_iff, hParse_iff/hParseLine_iff, parseHead_sound, bodyKind_*/host_* and otherwise on the tie")
 
 DEFAULT_CFG = {"mh": 65536, "mb": 104857600, "ov": [], "nk": False}
 
@@ -359,6 +398,12 @@ def spec_violation(case, impl, replies):
             n, len(done), len(reqs), tail if isinstance(tail, str) else tail[0])
     kind = tail if isinstance(tail, str) else tail[0]
     allowed = "" if isinstance(tail, str) else tail[1]
+    # "delivers nothing further": beyond the reader's finished requests the application may see at most the head (+ partial
+    # body) of the ONE message at which the reader stops (pending / reject); nothing at all after a non-persistent request
+    nreq = sum(1 for e in ev if isinstance(e, list) and e[0] == "req")
+    if nreq > len(reqs) + (0 if kind == "stop" else 1):
+        return "requests differ from the strict reader at #%d: server delivered %d, reader extracts %d (tail %s)" % (
+            len(reqs), nreq, len(reqs), kind)
     if partial and not allowed.startswith(partial):
         return "body bytes delivered for the unfinished message are not a prefix of what the strict reader extracts (%s)" % kind
     if kind == "reject" and not (impl["closed_before_eof"] or "w400" in ev):
